@@ -19,7 +19,14 @@ LintReasons(e) ==
       anyInvalid == inv /\ (e.sanProbe \/ (e.cnProbe /\ ~e.cnIsIP))
       want == LintVerdict(e.subscriber, InWindow(e.eff, e.ineff, e.t), anyInvalid) IN
    IF e.i > 0 /\ ~EntryWellFormed(x) THEN {} ELSE IF e.status = want THEN {} ELSE {<<"lint-verdict", want>>}
-Reasons(e) == CASE e.ev = "TLDTable" -> TableReasons [] e.ev = "Probe" -> ProbeReasons(e) [] e.ev = "TLDLint" -> LintReasons(e) [] OTHER -> {}
+\* a table written by the generator from synthetic registry data: it may refuse the data, it must not write a malformed table
+GenEntry(e, i) == [key |-> e.keys[i], keyLower |-> e.keysLower[i], gtld |-> e.gtld[i], deleg |-> e.deleg[i], removal |-> e.removal[i]]
+GenReasons(e) ==
+   (IF e.wrote /\ ~e.parsedBack THEN {<<"generated-file-does-not-parse", 0>>} ELSE {}) \cup
+   {<<"generated-table-entry-malformed", i>> : i \in {j \in 1..Len(e.keys) : e.wrote /\ ~EntryWellFormed(GenEntry(e, j))}} \cup
+   (IF e.wrote /\ e.exit # 0 THEN {<<"table-written-although-the-generator-reported-failure", 0>>} ELSE {}) \cup
+   (IF e.class = "clean" /\ ~e.wrote THEN {<<"fid-clean-registry-data-refused", 0>>} ELSE {})
+Reasons(e) == CASE e.ev = "Gen" -> GenReasons(e) [] e.ev = "TLDTable" -> TableReasons [] e.ev = "Probe" -> ProbeReasons(e) [] e.ev = "TLDLint" -> LintReasons(e) [] OTHER -> {}
 TraceInit == l = 1 /\ nrej = 0
 Step == /\ l <= Len(Trace)
         /\ LET r == Reasons(Trace[l]) IN IF r = {} THEN nrej' = nrej ELSE PrintT(<<"REJECT", l, r>>) /\ nrej' = nrej + 1
